@@ -61,11 +61,12 @@ Precondition(x) == \A k \in 1..est : A[k] # 0 /\ (x[k] - b[k]) % AbsV(A[k]) = 0
 ZOf(x) == [k \in 1..est |-> (Sgn(A[k]) * (x[k] - b[k])) \div AbsV(A[k])]
 
 (* estimateUsingSVD / estimateUsingCholeskyDecomposition: any minimiser of the CURRENT rows, mapped through A x + b *)
-Estimate(x) == /\ AllLiveFilled /\ Precondition(x) /\ Normal(ZOf(x), Unweighted)
+Estimate(x) == /\ dsz >= est                                   \* C07: data size from the estimate size upwards
+               /\ AllLiveFilled /\ Precondition(x) /\ Normal(ZOf(x), Unweighted)
                /\ UNCHANGED lsvars
 (* weightedEstimate: minimiser of sum (w_i r_i)^2; the live rows are left multiplied by their weights *)
 WeightedEstimate(x) ==
-  /\ AllLiveFilled /\ Precondition(x) /\ Normal(ZOf(x), Wt)
+  /\ dsz >= est /\ AllLiveFilled /\ Precondition(x) /\ Normal(ZOf(x), Wt)
   /\ J' = [i \in 1..Cap |-> IF i \in Live THEN [k \in 1..est |-> Wt[i] * J[i][k]] ELSE J[i]]
   /\ Y' = [i \in 1..Cap |-> IF i \in Live THEN Wt[i] * Y[i] ELSE Y[i]]
   /\ wdone' = TRUE
